@@ -83,3 +83,12 @@ def edit_copy_keeps_original(p, b, s):
     ic = list(p._intercepts)
     edit_copy_of(p, b, s)
     return xs == p.intervals and ys == p.slopes and ic == p._intercepts
+
+
+def reload_twice_with_an_edit_between(p, b, s):
+    """history: decode what p writes with the JSON hook, edit that copy, write p again and decode again:
+    the second copy (must be p as it is)"""
+    from pmutt.io.json import json_to_pmutt
+    first = json_to_pmutt(p.to_dict())
+    first.insert(b, s)
+    return json_to_pmutt(p.to_dict())
